@@ -688,7 +688,7 @@ def gen_scope_case(rng, t, profile):
     herr = rng.choice(ERR_POOL) if (errorable and rng.random() < 0.4) else None
     q = base_scope(t, vars_, rng.choice(t["val_pool"]), herr, errorable)
     q["shared"] = rng.random() < 0.3
-    mode = "obs" if profile == "observe" else "rw"
+    mode = "obs" if profile in ("observe", "subarity") else "rw"
     allow_arity = profile == "arity"
     var_wire = [v.encode().hex() for v in VAR_POOL]
     # publisher-side positions: vars then the value; rewriting a variable moves the message to another topic
@@ -710,6 +710,12 @@ def gen_scope_case(rng, t, profile):
     q["sctor"] = gen_list(rng, lens[3], *gs)
     if allow_arity:
         add_arity_break(rng, [[] if q["shared"] else q["pprov"], q["pctor"], q["sprov"], q["sctor"]])
+    if profile == "subarity":
+        # the subscriber callback returns method.Invoke(...).Error(): the LAST result, whatever their number
+        if not q["sctor"]:
+            q["sctor"] = gen_list(rng, 1, *gs)
+        q["errorable"], q["herr"] = True, rng.choice(ERR_POOL)
+        rng.choice(q["sctor"])["post"].append({"k": "app"})
     q["pstyle"], q["sstyle"], q["provstyle"] = gen_style(rng), gen_style(rng), gen_style(rng)
     if rng.random() < 0.3:
         q["poison"] = [{"id": 50 + i, "pre": [], "post": []} for i in range(rng.randrange(1, 4))]
@@ -811,7 +817,8 @@ def run_program(ctx, prog, lab_id, gen_opts, per_target, stats, judge_cases, jud
             if t["kind"] == "rpc" and t["level"] > 0:
                 stats["targets_inherited"] += 1
             for j in range(per_target):
-                profile = PROFILES[(j + rng.randrange(len(PROFILES))) % len(PROFILES)] if j >= 3 else ["mixed", "observe", "mixed"][j]
+                fixed = ["mixed", "observe", "mixed", "arity", "subarity" if t["kind"] == "scope" else "single"]
+                profile = fixed[j] if j < len(fixed) else rng.choice(PROFILES + (["subarity"] if t["kind"] == "scope" else []))
                 c = (gen_rpc_case if t["kind"] == "rpc" else gen_scope_case)(rng, t, profile)
                 if c is None:
                     stats["skipped_no_stable_values"] += 1
